@@ -11,7 +11,7 @@ META = {
         "caller is an external thread (descriptor blocks come from malloc rather than the memory pool: C15's subject)",
         "sequential consistency; the concurrent set (ktable_race_*) is a harness MODEL of the other unit's completed set (net effect: append/overwrite of the new key), placed at an atomic instruction of the real focus set; running the real set concurrently makes the encoding intractable",
     ],
-    "outside": ["key tables with more than one slot", "more than 4 keys per unit", "front-end argument checks of ABT_key_set/get, ABT_self_*_specific"],
+    "outside": ["key tables with more than one slot other than the malloc'ed 16-slot table of ktable_big (slots 0 and 15)", "more than 4 keys per unit", "front-end argument checks of ABT_key_set/get, ABT_self_*_specific"],
 }
 SPIN = ["ABTD_spinlock_acquire.0", "ABTD_spinlock_acquire.1", "ABTI_ktable_set.0", "ABTI_ktable_set.1"]
 ENC = ["ABTI_ktable_set", "ABTI_ktable_set_impl", "ABTI_ktable_get", "ABTI_ktable_create", "ABTI_ktable_alloc_elem", "ABTI_ktable_free", "ABTI_mem_alloc_desc", "ABTI_mem_free_desc"]
@@ -31,6 +31,8 @@ def obligations(tier):
                      bounds="one concurrent set, placed at any atomic instruction of the focus at which the table lock is free", symbolic="placement of the concurrent set, key ids, values, destructors"))
     o.append(Obl("key_ids", "C16/keyid.c", "4 solver-chosen ABT_key_create / ABT_key_free operations on 3 handles from an arbitrary id counter: an id is never handed out twice, not even after the key was freed (its entries may still live in work units), and never collides with the runtime's reserved keys",
                  unwind=5, object_bits=10, backend="cadical", encodes=["ABT_key_create", "ABT_key_free"], bounds="4 operations, 3 handles, counter below 2^32-16", symbolic="operation sequence, counter start, destructor presence"))
+    o.append(Obl("ktable_big", "C16/ktable_big.c", "key table LARGER than a pooled descriptor (16 slots: malloc'ed table without spare room): lazy creation, two keys in the first/last slot (colliding or not), overwrite, read back, free: every access stays inside a block that was handed out, map semantics, destructors and blocks exactly once",
+                 unwind=4, unwindset=["ABTI_ktable_free.1:17", "main.0:16", "memset.0:16"], cut_loops=SPIN, object_bits=10, backend="cadical", encodes=ENC, bounds="ABT_KEY_TABLE_SIZE = 16, 2 keys, first key in slot 15, second in slot 0 or 15", symbolic="key ids (slot first or last), values, destructor presence"))
     import importlib as _il
     C18 = _il.import_module("props.C18")
     o += [x for x in C18.own_obligations(tier) if x.name in ("ktable_lazy_create", "ktable_grow_fail")]
